@@ -66,21 +66,21 @@ Definition chk_gres (r : gres group) (obs : gobs) : bool :=
   | _, _ => false
   end.
 
-Definition chk_group (u : universe) (c : list string * gobs) : bool := chk_gres (mkgroup u (fst c)) (snd c).
-Definition chk_conform (u : universe) (c : string * gobs) : bool := chk_gres (conform_str u (fst c)) (snd c).
+Definition chk_group (c : universe * list string * gobs) : bool :=
+  let '(u, i, o) := c in chk_gres (mkgroup u i) o.
+Definition chk_conform (c : universe * string * gobs) : bool :=
+  let '(u, n, o) := c in chk_gres (conform_str u n) o.
 
-(* pairs: (i, j, (index of a|b, index of a&b, [a<=b; a==b; hash a == hash b; a.isdisjoint(b)])) over a table
-   of group name tuples *)
-Definition chk_pair (u : universe) (gt : list (gres group)) (tbl : list (list string))
-    (c : nat * nat * (nat * nat * list bool)) : bool :=
-  let '(i, j, (ui, ii, bs)) := c in
-  match nth i gt GKeyError, nth j gt GKeyError with
-  | GOk a, GOk b =>
-    match gunion u a b, ginter u a b with
-    | GOk un, GOk it =>
-      list_eqb (gnames un) (nth ui tbl []) && list_eqb (gnames it) (nth ii tbl [])
-      && bools_eqb bs [gsubset a b; geqb a b; list_eqb (ghash a) (ghash b); gdisjoint a b]
-    | _, _ => false
-    end
+(* pairs: (universe, names of a, names of b, (names of a|b, names of a&b,
+   [a<=b; a==b; hash a == hash b; a.isdisjoint(b)])); a and b are groups already built by the implementation,
+   i.e. `DimensionGroup(universe, names, _conform=False)` = group_of_names *)
+Definition chk_pair (c : universe * list string * list string * (list string * list string * list bool)) : bool :=
+  let '(u, na, nb, (nu, ni, bs)) := c in
+  let a := group_of_names u na in
+  let b := group_of_names u nb in
+  match gunion u a b, ginter u a b with
+  | GOk un, GOk it =>
+    list_eqb (gnames un) nu && list_eqb (gnames it) ni
+    && bools_eqb bs [gsubset a b; geqb a b; list_eqb (ghash a) (ghash b); gdisjoint a b]
   | _, _ => false
   end.
